@@ -61,7 +61,7 @@ func scnGangSparse(name string) *world.Scenario {
 			{Key: "p2", App: "gapp", Res: world.M(2), Placeholder: true, TaskGroup: "tg1", Create: 1002},
 			{Key: "r1", App: "gapp", Res: world.MV(1, 1), TaskGroup: "tg1", Create: 1003},
 			{Key: "r4", App: "gapp", Res: Res{"memory": 2, "vcore": 1, "gpu": 2}, TaskGroup: "tg1", Create: 1004}, // a type the placeholder lacks
-			{Key: "r5", App: "gapp", Res: world.MV(2, 1), TaskGroup: "tg1", Create: 1005},                           // vcore is missing from placeholder p2
+			{Key: "r5", App: "gapp", Res: world.MV(2, 1), TaskGroup: "tg1", Create: 1005},                         // vcore is missing from placeholder p2
 		},
 		Deny:     [][2]string{{"r1", "n1"}},
 		Alphabet: []string{"SCHEDULE", "ASK", "RELEASE", "CONFIRM", "NODE_REMOVE", "TIMER_PH"},
